@@ -245,9 +245,10 @@ def file_names(fmt):
 
 
 def run_child(cwd, job, kill=None, timeout=300):
-    """Run the child under strace in directory `cwd`.  kill = (syscall kind, n): SIGKILL is delivered on
-    entry of the n-th traced call of that kind (the call does not take effect).
-    Returns (strace exit code, raw strace log text)."""
+    """Run the child under strace in directory `cwd`.  kill = (syscall kind, n[, signal]): the signal (default
+    KILL) is delivered on entry of the n-th traced call of that kind; with KILL the call does not take effect.
+    Only calls on the two result files and the marker file are traced (and counted).
+    Returns (strace exit code, raw strace log text, stdout of the child)."""
     out, bak = file_names(job['fmt'])
     job = dict(job, dir='.', marker='marker', out=out)
     log = os.path.join(cwd, 'strace.%s.log' % job['tag'])
